@@ -1358,7 +1358,8 @@ pub struct AddressAssignment {
 
 lazy_static! {
     static ref DIRECT_ADDRESS_UNASSIGNED: Regex = Regex::new(r"%([IQM])\*").unwrap();
-    static ref DIRECT_ADDRESS: Regex = Regex::new(r"%([IQM])([XBWDL])?(\d(\.\d)*)").unwrap();
+    static ref DIRECT_ADDRESS: Regex =
+        Regex::new(r"%([IQM])([XBWDL])?([0-9]+(\.[0-9]+)*)").unwrap();
 }
 
 impl TryFrom<&str> for AddressAssignment {
@@ -1377,11 +1378,18 @@ impl TryFrom<&str> for AddressAssignment {
 
         if let Some(cap) = DIRECT_ADDRESS.captures(value) {
             let location_prefix = LocationPrefix::try_from(&cap[1])?;
-            let size_prefix = SizePrefix::try_from(&cap[2])?;
-            let pos: Vec<u32> = cap[3]
-                .split('.')
-                .map(|v| v.parse::<u32>().unwrap())
-                .collect();
+            // The size prefix is optional
+            let size_prefix = match cap.get(2) {
+                Some(size) => SizePrefix::try_from(size.as_str())?,
+                None => SizePrefix::Nil,
+            };
+            let mut pos: Vec<u32> = Vec::new();
+            for component in cap[3].split('.') {
+                let component = component
+                    .parse::<u32>()
+                    .map_err(|e| "Address component is not in range")?;
+                pos.push(component);
+            }
 
             return Ok(AddressAssignment {
                 location: location_prefix,
